@@ -49,14 +49,23 @@ static std::string run(const toks_t& t)
         if (pos != t.size()) throw bad_op{};
         return "ok " + show(jp::flatten(d));
     }
-    if (op == "flatrt")
+    if (op == "flatrt" || op == "unflat")
     {
-        std::size_t pos = 3;
+        // ptr flatrt|unflat <j|o> <0|1> <doc>: 1 = unflatten_options::assume_object
+        auto opt = t.at(3) == "1" ? jp::unflatten_options::assume_object : jp::unflatten_options::none;
+        std::size_t pos = 4;
         Json d = read_val<Json>(t, pos);
         if (pos != t.size()) throw bad_op{};
-        Json f = jp::flatten(d);
-        Json u = jp::unflatten(f);
-        return "ok " + show(u);
+        try
+        {
+            Json f = op == "flatrt" ? jp::flatten(d) : d;
+            Json u = jp::unflatten(f, opt);
+            return "ok " + show(u);
+        }
+        catch (const jp::jsonpointer_error&)
+        {
+            return "err";
+        }
     }
     bool create = t.at(3) == "1";
     std::string loc = xarg(t.at(4));
